@@ -54,6 +54,9 @@ func NewSyncedPool(producer kvdb.DBProducer, flushIDKey []byte) *SyncedPool {
 }
 
 func (p *SyncedPool) Initialize(dbNames []string, flushID []byte) ([]byte, error) {
+	p.Lock()
+	defer p.Unlock()
+
 	for _, name := range dbNames {
 		wrapper := p.getDB(name)
 		_, err := wrapper.InitUnderlyingDb()
@@ -120,7 +123,7 @@ func (p *SyncedPool) GetUnderlying(name string) (kvdb.Store, error) {
 	}
 
 	wrapper.Flushable = p.getDB(name)
-	db, err := wrapper.Flushable.initUnderlyingDb()
+	db, err := wrapper.Flushable.InitUnderlyingDb()
 	if err != nil {
 		return nil, err
 	}
@@ -171,7 +174,7 @@ func (p *SyncedPool) flush(id []byte) error {
 		if err != nil {
 			return err
 		}
-		db := w.Flushable.underlying
+		db := w.Flushable.underlyingDb()
 		if db == nil {
 			continue
 		}
@@ -226,11 +229,8 @@ func (p *SyncedPool) NotFlushedSizeEst() int {
 	return totalNotFlushed
 }
 
-// checkDBsSynced on startup, after all dbs are registered.
+// checkDBsSynced on startup, after all dbs are registered. The caller holds the pool's lock.
 func (p *SyncedPool) checkDBsSynced(flushID []byte) ([]byte, error) {
-	p.Lock()
-	defer p.Unlock()
-
 	dbs := map[string]kvdb.Store{}
 	for name, w := range p.wrappers {
 		db, err := w.Flushable.InitUnderlyingDb()
